@@ -26,19 +26,16 @@ func init() {
 			idx := errorIndex(fn.Signature)
 			// default region: return blocks with a definitely non-nil error whose set contains an invalid type
 			var def iset
-			for _, b := range fn.Blocks {
-				ret, ok := b.Instrs[len(b.Instrs)-1].(*ssa.Return)
-				if !ok {
-					continue
-				}
+			for _, rp := range returnPoints(fn, idx) {
+				b := rp.from
 				s := sets[b].intersect(rng(0, 255))
 				if !rng(255, 255).subsetOf(s) || s.equal(rng(0, 255)) {
 					continue // not type-dependent (e.g. the depth-limit error)
 				}
-				if definitelyNonNilErr(ret.Results[idx], b) {
+				if definitelyNonNilErr(rp.val, b) {
 					def = def.union(s)
 				} else {
-					r.Bad(fname(fn), "default", ret.Pos(), "an unknown wire type (e.g. 255) can reach a return without error: the field is not skipped and the reader is desynchronised")
+					r.Bad(fname(fn), "default", rp.ret.Pos(), "an unknown wire type (e.g. 255) can reach a return without error: the field is not skipped and the reader is desynchronised")
 				}
 			}
 			r.Check(!def.empty(), fname(fn), "default returns error", fn.Pos(), "unknown wire types %s return a non-nil error", "no error return for unknown wire types (set %s)", def)
@@ -181,15 +178,23 @@ func init() {
 				r.AnchorMissing("codec.(*Reader).unreadHead")
 				return
 			}
-			sets := valueSets(fn, fn.Params[1], nil)
-			var all []iset
-			eachInstr(fn, func(in ssa.Instruction) {
-				if c := callCommon(in); c != nil && funcID(calleeObj(c)) == "bytes.(Reader).UnreadByte" {
-					all = append(all, sets[in.Block()])
+			// the function depends on nothing but the tag byte: execute it for every one of the 256 tags
+			// and count the bytes it steps back
+			isUnread := func(c *ssa.CallCommon) bool { return funcID(calleeObj(c)) == "bytes.(Reader).UnreadByte" }
+			bad := ""
+			for tag := int64(0); tag <= 255 && bad == ""; tag++ {
+				n, ok := concreteCount(fn, map[ssa.Value]int64{fn.Params[1]: tag}, isUnread)
+				want := 1
+				if tag >= 15 {
+					want = 2
 				}
-			})
-			ok := len(all) == 2 && ((all[0].equal(rng(0, 255)) && all[1].equal(rng(15, 255))) || (all[1].equal(rng(0, 255)) && all[0].equal(rng(15, 255))))
-			r.Check(ok, fname(fn), "bytes un-read per tag", fn.Pos(), "one byte for every tag, a second one exactly for tags [15,255]", "un-read byte counts per tag set are %v; the head is 2 bytes exactly for tags [15,255]", all)
+				if !ok {
+					bad = fmt.Sprintf("the number of bytes un-read for tag %d could not be computed (the function depends on more than its tag argument)", tag)
+				} else if n != want {
+					bad = fmt.Sprintf("tag %d: %d byte(s) un-read, the head of that tag is %d byte(s) long", tag, n, want)
+				}
+			}
+			r.Check(bad == "", fname(fn), "bytes un-read per tag", fn.Pos(), "one byte for tags [0,14], two for tags [15,255] (all 256 tags executed)", "%s; the head is 2 bytes exactly for tags [15,255]", bad)
 		}})
 
 	register(&Rule{ID: "C04.R5", Props: []string{"C04"}, Min: 20, Needs: NeedMain,
@@ -488,4 +493,191 @@ func reachesInstr(a, b ssa.Instruction) bool {
 		return false
 	}
 	return walk(a.Block())
+}
+
+// concreteCount executes fn on concrete integer arguments and counts the calls selected by target.
+// Only integer/boolean computation on the arguments and constants is interpreted; any branch that
+// depends on something else makes the result unknown (ok=false).
+func concreteCount(fn *ssa.Function, args map[ssa.Value]int64, target func(*ssa.CallCommon) bool) (int, bool) {
+	vals := map[ssa.Value]int64{}
+	for k, v := range args {
+		vals[k] = v
+	}
+	var eval func(v ssa.Value) (int64, bool)
+	trunc := func(x int64, t types.Type) int64 {
+		b, ok := t.Underlying().(*types.Basic)
+		if !ok {
+			return x
+		}
+		switch b.Kind() {
+		case types.Int8:
+			return int64(int8(x))
+		case types.Int16:
+			return int64(int16(x))
+		case types.Int32:
+			return int64(int32(x))
+		case types.Uint8:
+			return int64(uint8(x))
+		case types.Uint16:
+			return int64(uint16(x))
+		case types.Uint32:
+			return int64(uint32(x))
+		}
+		return x
+	}
+	eval = func(v ssa.Value) (int64, bool) {
+		if x, ok := vals[v]; ok {
+			return x, true
+		}
+		if k, ok := constInt(v); ok {
+			return k, true
+		}
+		if b, ok := constBool(v); ok {
+			if b {
+				return 1, true
+			}
+			return 0, true
+		}
+		return 0, false
+	}
+	b := fn.Blocks[0]
+	var prev *ssa.BasicBlock
+	count := 0
+	for steps := 0; steps < 4096; steps++ {
+		for _, in := range b.Instrs {
+			switch x := in.(type) {
+			case *ssa.Phi:
+				for i, p := range b.Preds {
+					if p == prev {
+						if v, ok := eval(x.Edges[i]); ok {
+							vals[x] = v
+						} else {
+							delete(vals, x)
+						}
+					}
+				}
+			case *ssa.BinOp:
+				a, ok1 := eval(x.X)
+				c, ok2 := eval(x.Y)
+				if !ok1 || !ok2 {
+					delete(vals, x)
+					continue
+				}
+				var rr int64
+				bl := func(t bool) int64 {
+					if t {
+						return 1
+					}
+					return 0
+				}
+				switch x.Op {
+				case token.ADD:
+					rr = trunc(a+c, x.Type())
+				case token.SUB:
+					rr = trunc(a-c, x.Type())
+				case token.MUL:
+					rr = trunc(a*c, x.Type())
+				case token.AND:
+					rr = a & c
+				case token.OR:
+					rr = a | c
+				case token.SHL:
+					rr = trunc(a<<uint(c&63), x.Type())
+				case token.SHR:
+					rr = a >> uint(c&63)
+				case token.EQL:
+					rr = bl(a == c)
+				case token.NEQ:
+					rr = bl(a != c)
+				case token.LSS:
+					rr = bl(a < c)
+				case token.LEQ:
+					rr = bl(a <= c)
+				case token.GTR:
+					rr = bl(a > c)
+				case token.GEQ:
+					rr = bl(a >= c)
+				default:
+					delete(vals, x)
+					continue
+				}
+				vals[x] = rr
+			case *ssa.UnOp:
+				if a, ok := eval(x.X); ok && x.Op == token.NOT {
+					vals[x] = 1 - a
+				} else if ok && x.Op == token.SUB {
+					vals[x] = trunc(-a, x.Type())
+				} else {
+					delete(vals, x)
+				}
+			case *ssa.Convert:
+				if a, ok := eval(x.X); ok {
+					vals[x] = trunc(a, x.Type())
+				} else {
+					delete(vals, x)
+				}
+			case *ssa.ChangeType:
+				if a, ok := eval(x.X); ok {
+					vals[x] = a
+				}
+			case *ssa.Call:
+				if target(&x.Call) {
+					count++
+				}
+			case *ssa.Defer, *ssa.Go:
+				return 0, false
+			}
+		}
+		switch t := b.Instrs[len(b.Instrs)-1].(type) {
+		case *ssa.Return:
+			return count, true
+		case *ssa.If:
+			cv, ok := eval(t.Cond)
+			if !ok {
+				return 0, false
+			}
+			prev = b
+			if cv != 0 {
+				b = b.Succs[0]
+			} else {
+				b = b.Succs[1]
+			}
+		case *ssa.Jump:
+			prev = b
+			b = b.Succs[0]
+		default:
+			return 0, false
+		}
+	}
+	return 0, false
+}
+
+// retPoint: one way a function result is produced: the value and the block control comes from when it
+// is chosen (a result merged by phis is split into its incoming edges).
+type retPoint struct {
+	ret  *ssa.Return
+	val  ssa.Value
+	from *ssa.BasicBlock
+}
+
+func returnPoints(fn *ssa.Function, idx int) []retPoint {
+	var out []retPoint
+	for _, b := range fn.Blocks {
+		ret, ok := b.Instrs[len(b.Instrs)-1].(*ssa.Return)
+		if !ok || idx >= len(ret.Results) {
+			continue
+		}
+		var expand func(v ssa.Value, from *ssa.BasicBlock, depth int)
+		expand = func(v ssa.Value, from *ssa.BasicBlock, depth int) {
+			if phi, ok := v.(*ssa.Phi); ok && depth < 4 && (phi.Block() == from || phi.Block().Dominates(from)) {
+				for i, e := range phi.Edges {
+					expand(e, phi.Block().Preds[i], depth+1)
+				}
+				return
+			}
+			out = append(out, retPoint{ret, v, from})
+		}
+		expand(ret.Results[idx], b, 0)
+	}
+	return out
 }
